@@ -1,5 +1,71 @@
+import SamVerif.Model.ErrorSet
 import Driver.Util
-/-! Line-protocol driver for property C12 (model side). Not implemented yet. -/
+/-! Protocol `errset` (C12): builds per-module error sets with the model of
+`samlang_errors::ErrorSet`, merges them in the given order and prints the resulting sequence.
+
+line:  `merge <M> <S> <groups>`
+  `<M>`  allocation order of the module handles, e.g. `2,0,1` (handle 2 is allocated first)
+  `<S>`  allocation order of the heap-string handles (or `-`)
+  `<groups>` groups separated by `;`, errors inside a group by `,` (a group may be `-` = empty)
+  error: `m.sl.sc.el.ec.rank.atoms`, atoms joined by `+` (or `-`): `n<k>` number, `i<hex>` inline
+  string / text, `h<k>` heap string handle k, `m<k>` module handle k
+answer: the merged sequence, errors in the same syntax, joined by `,` (or `-`). -/
+namespace Driver.C12
+open SamVerif.ErrorSet Driver
+
+def natsOf (s : String) : List Nat :=
+  if s == "-" then [] else (s.splitOn ",").map String.toNat!
+
+def idxOf (l : List Nat) (x : Nat) : Nat :=
+  match l with
+  | [] => 0
+  | y :: ys => if x = y then 0 else idxOf ys x + 1
+
+/-- handle names: modules `k`, heap strings `1000 + k` -/
+def mkIds (ms ss : List Nat) (h : Nat) : Nat :=
+  if h < 1000 then idxOf ms h else idxOf ss (h - 1000)
+
+def parseAtom (s : String) : Atom :=
+  let body := (s.drop 1).toString
+  match s.front with
+  | 'n' => .num body.toNat!
+  | 'i' => .inl ((bytesOfHex body).map (·.toNat))
+  | 'h' => .heap (1000 + body.toNat!)
+  | _ => .heap body.toNat!
+
+def showAtom : Atom → String
+  | .num n => s!"n{n}"
+  | .inl bs => "i" ++ hexOfBytes (bs.map UInt8.ofNat)
+  | .heap h => if h < 1000 then s!"m{h}" else s!"h{h - 1000}"
+
+def parseErr (s : String) : Option Err :=
+  match s.splitOn "." with
+  | [m, sl, sc, el, ec, rank, atoms] =>
+    some { modl := m.toNat!, sl := sl.toNat!, sc := sc.toNat!, el := el.toNat!, ec := ec.toNat!,
+           rank := rank.toNat!,
+           atoms := if atoms == "-" then [] else (atoms.splitOn "+").map parseAtom }
+  | _ => none
+
+def showErr (e : Err) : String :=
+  let atoms := if e.atoms.isEmpty then "-" else "+".intercalate (e.atoms.map showAtom)
+  s!"{e.modl}.{e.sl}.{e.sc}.{e.el}.{e.ec}.{e.rank}.{atoms}"
+
+def parseGroup (s : String) : List Err :=
+  if s == "-" then [] else (s.splitOn ",").filterMap parseErr
+
+def step (_ : Unit) (line : String) : Unit × String :=
+  match words line with
+  | ["merge", m, s, groups] =>
+    let ids := mkIds (natsOf m) (natsOf s)
+    let pm := (groups.splitOn ";").map parseGroup
+    let out := render ids pm
+    ((), if out.isEmpty then "-" else ",".intercalate (out.map showErr))
+  | _ => ((), "bad-op")
+
+def run : IO Unit := runLoop () step
+
+end Driver.C12
+
 def main (_args : List String) : IO UInt32 := do
-  IO.eprintln "drv-c12: not implemented yet"
-  return 2
+  Driver.C12.run
+  return 0
